@@ -44,7 +44,7 @@ def run(ctx):
             sc = random_score(ctx.rng, 12 if ctx.rng.random() < .5 else 5, ctx.rng.choice([20, 60, 200]),
                               pitches=(60, 61) if ctx.rng.random() < .7 else (60,))
             cases.append((len(cases), sc, ctx.rng.choice(vls), ctx.rng.random() < .5))
-    if ctx.thorough and not ctx.replay:
+    if ctx.fixtures and not ctx.replay:
         from harness import fixtures
         for kind in ("raw", "quantised"):
             for sc in fixtures.slices(kind):
